@@ -983,7 +983,7 @@ class UnitQuaternion(Quaternion):
 
             elif isinstance(s, np.ndarray) and s.shape[1] == 4:
                 if norm:
-                    self.data = [base.qnorm(x) for x in s]
+                    self.data = [base.unit(x) for x in s]
                 else:
                     self.data = [x for x in s]
 
